@@ -20,7 +20,7 @@ TIMEOUT_S = {"quick": 600, "thorough": 3000}
 BUDGET_S = {"quick": 120, "thorough": 1500}
 RULE = ("bounded-exhaustive DFS with (tracker state, shadow state) hashing over the alphabet {N: endpoint sends its next "
         "id, K: sends next+1 first (out of order), H: sends the oldest skipped id, R: resends its oldest id, L: resends "
-        "its newest id, I: proxy injects} to depth D (quick 8, thorough 11) for window sizes 1,2,3 and starting ids 0/1; "
+        "its newest id, I: proxy injects} to depth D (quick 8, thorough 12) for window sizes 1,2,3 and starting ids 0/1; "
         "random walks of 300 steps with windows 1..50 and 10000. After EVERY step all laws are evaluated for every "
         "original id 0..max+3. distinct_nontrivial = distinct hashed (implementation, shadow) states with >= 1 injection")
 ASSUMPTIONS = [
@@ -234,7 +234,7 @@ def random_walk(ctx, rng, maxlen, steps):
 
 def run(ctx):
     tmon.install()
-    depth = ctx.pick(8, 11)
+    depth = ctx.pick(8, 12)
     configs = [(maxlen, start) for maxlen in (1, 2, 3) for start in (0, 1)]
     # shard the DFS by (config, first action)
     work = [(ml, st, a) for (ml, st) in configs for a in "NKI"]
@@ -250,7 +250,7 @@ def run(ctx):
     ctx.flag("exhaustive", True)
     ctx.flag("dfs_depth", depth)
     rng = ctx.rng
-    n_walks = ctx.pick(6, 60)
+    n_walks = ctx.pick(6, 200)
     for k in range(n_walks):
         if ctx.out_of_time():
             break
